@@ -17,7 +17,7 @@ PROPERTY = {
               'normalize_modpath: a path whose LAST COMPONENT is __init__.py / __main__.py (not merely a suffix of the name) is normalised as documented',
               'split_modpath: the directory it returns holds no __init__.py (it is the search-path directory); only ValueError, only under check',
               'importing by path leaves sys.path unchanged on success and on failure (PythonPathContext / _custom_import_modpath, shared with C12)'],
-        'B': ['the real modname_to_modpath / modpath_to_modname / split_modpath on scratch trees (subsets of 14 optional entries: packages, modules, directories without __init__.py, same-named directory/module and package/module pairs, __main__.py, underscore and *__init__.py names) x 351 dotted names, present or absent, against the INTERPRETER\'s path finder (importlib.machinery.PathFinder); round trip and split of every found path; sys.path unchanged (bounded/c17_resolve.py)'],
+        'B': ['the real modname_to_modpath / modpath_to_modname / split_modpath on scratch trees (subsets of 14 optional entries: packages, modules, directories without __init__.py, same-named directory/module and package/module pairs, __main__.py, underscore and *__init__.py names) x 351 dotted names, present or absent, against the INTERPRETER\'s path finder (importlib.machinery.PathFinder); round trip and split of every found path; sys.path unchanged; every second tree REPLACES the previous one at the same location (a resolver that remembers what it saw there answers for the wrong tree); split_modpath / modpath_to_modname of every module file of every tree against the answer known from the construction of the tree (search directory = nearest ancestor without __init__.py) (bounded/c17_resolve.py)'],
         'T': ['os.path.exists/isfile/isdir as uninterpreted predicates, join/dirname/basename as uninterpreted functions (abstract file system)',
               'termination assumption: a directory that holds an __init__.py is not its own parent (S.path_depth)'],
         'N/A': ['"the file the interpreter itself would import": the oracle is importlib\'s finder protocol (path hooks, namespace packages, '
